@@ -5,11 +5,13 @@ import (
 	"fmt"
 	"io"
 	"log"
+	"math/rand"
 	"os"
 	"strconv"
 	"strings"
 	"testing"
 
+	"github.com/evolbioinfo/goalign/align"
 	"pgregory.net/rapid"
 	"verif/internal/gen"
 	"verif/internal/pbt"
@@ -177,6 +179,9 @@ type siteCase struct {
 	IG    bool     `json:"ignore_gaps"`
 	IN    bool     `json:"ignore_n"`
 	Rev   bool     `json:"reverse"`
+	// Build: how the alignment is constructed before it is cleaned (see construct); Seed for Sample
+	Build string `json:"build,omitempty"`
+	Seed  int64  `json:"seed,omitempty"`
 }
 
 func (c siteCase) optMask() int {
@@ -190,7 +195,7 @@ func (c siteCase) optMask() int {
 }
 
 func (c siteCase) key() string {
-	return c.Alpha + "|" + strings.Join(c.Rows, "/") + "|" + c.Op + "|" + c.Chars + "|" + strconv.Itoa(c.P) + "/" + strconv.Itoa(c.Q) + "|" + strconv.Itoa(c.optMask())
+	return c.Alpha + "|" + strings.Join(c.Rows, "/") + "|" + c.Op + "|" + c.Chars + "|" + strconv.Itoa(c.P) + "/" + strconv.Itoa(c.Q) + "|" + strconv.Itoa(c.optMask()) + "|" + c.Build
 }
 
 func ali(alpha string, rows []string) gen.Ali {
@@ -256,6 +261,11 @@ func siteStates(c siteCase, literal bool) (states []int, anyTie bool, nEither in
 
 // verifySites compares what a site cleaning returned with the reference model
 func verifySites(rows []string, ends bool, states []int, first, last int, kept, rm []int, after []gen.Row, lengthAfter int) error {
+	return verifySitesNamed(nil, rows, ends, states, first, last, kept, rm, after, lengthAfter)
+}
+
+// names: the names of the rows, nil = s0, s1, ...
+func verifySitesNamed(names []string, rows []string, ends bool, states []int, first, last int, kept, rm []int, after []gen.Row, lengthAfter int) error {
 	l := len(rows[0])
 	// kept and rm: ascending, inside [0,L), disjoint, union = [0,L)
 	inRm := make([]bool, l)
@@ -339,7 +349,11 @@ func verifySites(rows []string, ends bool, states []int, first, last int, kept, 
 		for k, j := range kept {
 			w[k] = r[j]
 		}
-		if after[i].Name != nameOf(i) {
+		want := nameOf(i)
+		if names != nil {
+			want = names[i]
+		}
+		if after[i].Name != want {
 			return fmt.Errorf("row %d is named %q after cleaning", i, after[i].Name)
 		}
 		if after[i].Seq != string(w) {
@@ -354,10 +368,106 @@ func verifySites(rows []string, ends bool, states []int, first, last int, kept, 
 
 func nameOf(i int) string { return "s" + strconv.Itoa(i) }
 
+// ---- the ways library users obtain an alignment ---------------------------------------------------
+//
+//	""       rows added with AddSequence (every row owns its bytes)
+//	"shared" rows added with AddSequenceChar; identical rows are added from ONE []uint8
+//	"append" the first half built as above, the second half appended from another alignment with
+//	         Append (which does not copy the rows)
+//	"sample" Sample(all rows) of a source alignment: a permutation whose rows are the source's rows
+//	"clone"  Clone() of a source alignment
+//
+// The cleaning must give the selection of the kept columns (rows) of what the alignment held, and the
+// alignment that was the SOURCE of the Append / Sample / Clone must be unchanged afterwards.
+var buildModes = []string{"", "shared", "", "append", "", "sample", "clone"}
+
+func alphaCode(alpha string) int {
+	if alpha == "aa" {
+		return align.AMINOACIDS
+	}
+	return align.NUCLEOTIDS
+}
+
+func construct(alpha string, rows []string, build string, seed int64) (al align.Alignment, held []gen.Row, sourceUnchanged func() error) {
+	sourceUnchanged = func() error { return nil }
+	must := func(e error) {
+		if e != nil {
+			panic(fmt.Sprintf("harness: cannot build the alignment (%s): %v", build, e))
+		}
+	}
+	watch := func(what string, src align.Alignment) {
+		before := gen.Snapshot(src)
+		sourceUnchanged = func() error {
+			if now := gen.Snapshot(src); !gen.SameRows(now, before) {
+				return fmt.Errorf("the alignment that was the source of the %s changed: %s -> %s", what, gen.Show(before), gen.Show(now))
+			}
+			return nil
+		}
+	}
+	switch build {
+	case "shared":
+		al = align.NewAlign(alphaCode(alpha))
+		bufs := map[string][]uint8{}
+		for i, r := range rows {
+			b, ok := bufs[r]
+			if !ok {
+				b = []uint8(r)
+				bufs[r] = b
+			}
+			must(al.AddSequenceChar(nameOf(i), b, ""))
+		}
+	case "append":
+		k := len(rows) / 2
+		al = align.NewAlign(alphaCode(alpha))
+		for i := 0; i < k; i++ {
+			must(al.AddSequence(nameOf(i), rows[i], ""))
+		}
+		src := align.NewAlign(alphaCode(alpha))
+		for i := k; i < len(rows); i++ {
+			must(src.AddSequence(nameOf(i), rows[i], ""))
+		}
+		must(al.Append(src))
+		watch("Append", src)
+	case "sample":
+		src := gen.MustBuild(ali(alpha, rows))
+		rand.Seed(seed)
+		var e error
+		al, e = src.Sample(len(rows))
+		must(e)
+		watch("Sample", src)
+	case "clone":
+		src := gen.MustBuild(ali(alpha, rows))
+		var e error
+		al, e = src.Clone()
+		must(e)
+		watch("Clone", src)
+	default:
+		al = gen.MustBuild(ali(alpha, rows))
+	}
+	held = gen.Snapshot(al)
+	return
+}
+
+func seqsOf(held []gen.Row) []string {
+	out := make([]string, len(held))
+	for i, r := range held {
+		out[i] = r.Seq
+	}
+	return out
+}
+
 func cutoffOf(p, q int) float64 { return float64(p) / float64(q) }
 
 func checkSites(c siteCase) (o pbt.Outcome, err error) {
-	al := gen.MustBuild(ali(c.Alpha, c.Rows))
+	al, held, sourceUnchanged := construct(c.Alpha, c.Rows, c.Build, c.Seed)
+	names := make([]string, len(held))
+	for i, r := range held {
+		names[i] = r.Name
+	}
+	heldRows := seqsOf(held)
+	verifySites := func(rows []string, ends bool, states []int, first, last int, kept, rm []int, after []gen.Row, lengthAfter int) error {
+		return verifySitesNamed(names, heldRows, ends, states, first, last, kept, rm, after, lengthAfter)
+	}
 	var first, last int
 	var kept, rm []int
 	switch c.Op {
@@ -386,12 +496,15 @@ func checkSites(c siteCase) (o pbt.Outcome, err error) {
 		nEither++
 		o.Classes = append(o.Classes, "maj:cutoff-outside-[0,1]:nothing-removed-accepted")
 	}
+	if e := sourceUnchanged(); e != nil {
+		return o, fmt.Errorf("%s cutoff %d/%d (kept %v removed %v): %v", c.Op, c.P, c.Q, kept, rm, e)
+	}
 	o.Ambiguous = nEither
 	o.NonTrivial = (len(rm) > 0 && len(kept) > 0) || anyTie
 	if o.NonTrivial {
 		o.Key = c.key()
 	}
-	o.Classes = append(o.Classes, "op="+c.Op, "alphabet="+c.Alpha, optClass[c.optMask()])
+	o.Classes = append(o.Classes, "op="+c.Op, "alphabet="+c.Alpha, optClass[c.optMask()], "build="+buildName(c.Build))
 	if anyTie {
 		o.Classes = append(o.Classes, "exact-tie")
 	}
@@ -439,6 +552,8 @@ type seqCase struct {
 	IC    bool     `json:"ignore_case"`
 	IG    bool     `json:"ignore_gaps"`
 	IN    bool     `json:"ignore_n"`
+	Build string   `json:"build,omitempty"`
+	Seed  int64    `json:"seed,omitempty"`
 }
 
 func (c seqCase) optMask() int {
@@ -452,7 +567,7 @@ func (c seqCase) optMask() int {
 }
 
 func (c seqCase) key() string {
-	return "seq|" + c.Alpha + "|" + strings.Join(c.Rows, "/") + "|" + c.Op + "|" + c.Char + "|" + strconv.Itoa(c.P) + "/" + strconv.Itoa(c.Q) + "|" + strconv.Itoa(c.optMask())
+	return "seq|" + c.Alpha + "|" + strings.Join(c.Rows, "/") + "|" + c.Op + "|" + c.Char + "|" + strconv.Itoa(c.P) + "/" + strconv.Itoa(c.Q) + "|" + strconv.Itoa(c.optMask()) + "|" + c.Build
 }
 
 func seqStates(c seqCase) (states []int, anyTie bool, nEither int) {
@@ -477,6 +592,16 @@ func seqStates(c seqCase) (states []int, anyTie bool, nEither int) {
 // verifySeqs: after = remaining rows; the remaining rows are a sub-sequence of the original
 // rows (names, residues, order) containing every row that does not qualify and none that does
 func verifySeqs(rows []string, states []int, after []gen.Row, nbRemoved int, checkCount bool) (removed int, err error) {
+	return verifySeqsNamed(nil, rows, states, after, nbRemoved, checkCount)
+}
+
+func verifySeqsNamed(names []string, rows []string, states []int, after []gen.Row, nbRemoved int, checkCount bool) (removed int, err error) {
+	nameOf := func(i int) string {
+		if names != nil {
+			return names[i]
+		}
+		return nameOf(i)
+	}
 	k := 0
 	for i, r := range rows {
 		present := k < len(after) && after[k].Name == nameOf(i)
@@ -504,17 +629,27 @@ func verifySeqs(rows []string, states []int, after []gen.Row, nbRemoved int, che
 }
 
 func checkSeqs(c seqCase) (o pbt.Outcome, err error) {
-	al := gen.MustBuild(ali(c.Alpha, c.Rows))
+	al, held, sourceUnchanged := construct(c.Alpha, c.Rows, c.Build, c.Seed)
+	names := make([]string, len(held))
+	for i, r := range held {
+		names[i] = r.Name
+	}
+	// the model is evaluated on the rows in the order the alignment holds them
+	inOrder := c
+	inOrder.Rows = seqsOf(held)
 	var n int
 	if c.Op == "gap" {
 		n = al.RemoveGapSeqs(cutoffOf(c.P, c.Q), c.IN)
 	} else {
 		n = al.RemoveCharacterSeqs(c.Char[0], cutoffOf(c.P, c.Q), c.IC, c.IG, c.IN)
 	}
-	states, anyTie, nEither := seqStates(c)
+	states, anyTie, nEither := seqStates(inOrder)
 	after := gen.Snapshot(al)
-	removed, e := verifySeqs(c.Rows, states, after, n, true)
+	removed, e := verifySeqsNamed(names, inOrder.Rows, states, after, n, true)
 	if e != nil {
+		return o, fmt.Errorf("sequences, %s %q cutoff %d/%d: %v", c.Op, c.Char, c.P, c.Q, e)
+	}
+	if e := sourceUnchanged(); e != nil {
 		return o, fmt.Errorf("sequences, %s %q cutoff %d/%d: %v", c.Op, c.Char, c.P, c.Q, e)
 	}
 	if al.NbSequences() != len(c.Rows)-removed {
@@ -531,7 +666,7 @@ func checkSeqs(c seqCase) (o pbt.Outcome, err error) {
 	if o.NonTrivial {
 		o.Key = c.key()
 	}
-	o.Classes = append(o.Classes, "op=seqs-"+c.Op, "alphabet="+c.Alpha, "seq-"+optClass[c.optMask()])
+	o.Classes = append(o.Classes, "op=seqs-"+c.Op, "alphabet="+c.Alpha, "seq-"+optClass[c.optMask()], "build="+buildName(c.Build))
 	if anyTie {
 		o.Classes = append(o.Classes, "exact-tie")
 	}
@@ -711,8 +846,31 @@ func shapesText(shapes []shape) string {
 	return t
 }
 
-func withRowsSite(c siteCase, rows []string) siteCase { c.Rows = rows; return c }
-func withRowsSeq(c seqCase, rows []string) seqCase    { c.Rows = rows; return c }
+// the enumerations rotate through the constructions (deterministic: the enumeration is sequential)
+var buildCounter int64
+
+func nextBuild() (string, int64) {
+	buildCounter++
+	return buildModes[buildCounter%int64(len(buildModes))], buildCounter
+}
+
+func buildName(b string) string {
+	if b == "" {
+		return "AddSequence"
+	}
+	return b
+}
+
+func withRowsSite(c siteCase, rows []string) siteCase {
+	c.Rows = rows
+	c.Build, c.Seed = nextBuild()
+	return c
+}
+func withRowsSeq(c seqCase, rows []string) seqCase {
+	c.Rows = rows
+	c.Build, c.Seed = nextBuild()
+	return c
+}
 
 func both(rows, cols, drawn int) []shape {
 	return []shape{{"nt", rows, cols, drawn}, {"aa", rows, cols, drawn}}
@@ -747,14 +905,14 @@ func fullShapes() []shape {
 // a rotating subset of the combinations on the larger ones
 func drawnShapes() []shape {
 	if pbt.Thorough() {
-		return cat(both(3, 3, 3), both(4, 2, 8), both(2, 4, 8), both(1, 5, 96), both(5, 1, 96), both(1, 6, 16), both(6, 1, 16))
+		return cat(both(3, 3, 2), both(4, 2, 6), both(2, 4, 6), both(1, 5, 96), both(5, 1, 96), both(1, 6, 16), both(6, 1, 16))
 	}
 	return cat(both(3, 2, 12), both(2, 3, 12), both(4, 1, 96), both(1, 4, 96), both(1, 5, 16))
 }
 
 func variantShapes() []shape {
 	if pbt.Thorough() {
-		return cat(both(1, 1, 0), both(1, 2, 0), both(2, 1, 0), both(2, 2, 0), both(3, 1, 0), both(1, 3, 0), both(4, 1, 0), both(1, 4, 0), both(3, 2, 0), both(2, 3, 0), both(1, 5, 0), both(5, 1, 0), both(4, 2, 6), both(2, 4, 6), both(3, 3, 1))
+		return cat(both(1, 1, 0), both(1, 2, 0), both(2, 1, 0), both(2, 2, 0), both(3, 1, 0), both(1, 3, 0), both(4, 1, 0), both(1, 4, 0), both(3, 2, 0), both(2, 3, 0), both(1, 5, 0), both(5, 1, 0), both(4, 2, 4), both(2, 4, 4), both(3, 3, 1))
 	}
 	return cat(both(1, 1, 0), both(1, 2, 0), both(2, 1, 0), both(2, 2, 0), both(3, 1, 0), both(1, 3, 0), both(4, 1, 0), both(1, 4, 0), both(3, 2, 9), both(2, 3, 9), both(1, 5, 18))
 }
@@ -907,6 +1065,14 @@ func genCharSet(t *rapid.T, alpha string, rows []string) string {
 func genRandom(t *rapid.T) randCase {
 	alpha := rapid.SampledFrom([]string{"nt", "aa"}).Draw(t, "alphabet")
 	rows := genRows(t, alpha, 12, 15)
+	build := rapid.SampledFrom(buildModes).Draw(t, "build")
+	seed := rapid.Int64Range(1, 1<<30).Draw(t, "seed")
+	if build == "shared" {
+		// identical rows (they are added from one byte slice)
+		for k := rapid.IntRange(1, len(rows)).Draw(t, "ncopies"); k > 0; k-- {
+			rows[rapid.IntRange(0, len(rows)-1).Draw(t, "to")] = rows[rapid.IntRange(0, len(rows)-1).Draw(t, "from")]
+		}
+	}
 	kind := rapid.IntRange(0, 9).Draw(t, "kind")
 	hint := len(rows)
 	if kind >= 7 {
@@ -919,27 +1085,32 @@ func genRandom(t *rapid.T) randCase {
 		c.Rows = rows
 		c.Chars = genCharSet(t, alpha, rows)
 		c.Ends, c.IC, c.IG, c.IN, c.Rev = rapid.Bool().Draw(t, "ends"), rapid.Bool().Draw(t, "ic"), rapid.Bool().Draw(t, "ig"), rapid.Bool().Draw(t, "in"), rapid.Bool().Draw(t, "rev")
+		c.Build, c.Seed = build, seed
 		return randCase{Site: &c}
 	case kind == 5:
 		c := siteCase{Alpha: alpha, Op: "gap", P: p, Q: q}
 		c.Rows = rows
 		c.Ends = rapid.Bool().Draw(t, "ends")
+		c.Build, c.Seed = build, seed
 		return randCase{Site: &c}
 	case kind == 6:
 		c := siteCase{Alpha: alpha, Op: "maj", P: p, Q: q}
 		c.Rows = rows
 		c.Ends, c.IG, c.IN = rapid.Bool().Draw(t, "ends"), rapid.Bool().Draw(t, "ig"), rapid.Bool().Draw(t, "in")
+		c.Build, c.Seed = build, seed
 		return randCase{Site: &c}
 	case kind == 7:
 		c := seqCase{Alpha: alpha, Op: "gap", Char: "-", P: p, Q: q}
 		c.Rows = rows
 		c.IN = rapid.Bool().Draw(t, "in")
+		c.Build, c.Seed = build, seed
 		return randCase{Seq: &c}
 	default:
 		c := seqCase{Alpha: alpha, Op: "char", P: p, Q: q}
 		c.Rows = rows
 		c.Char = genCharSet(t, alpha, rows)[:1]
 		c.IC, c.IG, c.IN = rapid.Bool().Draw(t, "ic"), rapid.Bool().Draw(t, "ig"), rapid.Bool().Draw(t, "in")
+		c.Build, c.Seed = build, seed
 		return randCase{Seq: &c}
 	}
 }
